@@ -241,6 +241,29 @@ pub fn w_term_cached(out: &mut Vec<u8>, v: &RefVal, table: &[String]) {
                 out.extend_from_slice(&i.to_be_bytes());
             }
         }
+        RefVal::ExtFun { module, function, arity } => {
+            out.push(113);
+            atom(out, module);
+            atom(out, function);
+            w_term(out, &RefVal::Int(arity.clone()));
+        }
+        RefVal::IntFun { arity, uniq, index, num_free, module, old_index, old_uniq, pid, free } => {
+            let mut body = Vec::new();
+            body.push(*arity);
+            body.extend_from_slice(uniq);
+            body.extend_from_slice(&index.to_be_bytes());
+            body.extend_from_slice(&num_free.to_be_bytes());
+            atom(&mut body, module);
+            w_term(&mut body, &RefVal::Int(old_index.clone()));
+            w_term(&mut body, &RefVal::Int(old_uniq.clone()));
+            w_term_cached(&mut body, pid, table);
+            for x in free {
+                w_term_cached(&mut body, x, table);
+            }
+            out.push(112);
+            out.extend_from_slice(&((body.len() + 4) as u32).to_be_bytes());
+            out.extend_from_slice(&body);
+        }
         other => w_term(out, other),
     }
 }
